@@ -10,10 +10,11 @@
      [OutOfFuel] is produced only by the `while count >= cutoff` loop of from_digests.
    * HashSet/HashMap: sets are lists that are de-duplicated when the code materialises them;
      maps are association lists, newest binding first ([mget] returns the newest).
-   * two repairs are anticipated by boolean flags so that the lead can switch the model after a
-     `fix:` commit in /repo:  [leaf fixed] and [from_digests fixed].  [false] = the pinned tree.
-     The constants [CUR_LEAF_FIXED] / [CUR_CUTOFF_FIXED] say which variant describes the current
-     /repo; the oracle and the "current tree" theorems use them. *)
+   * two functions exist in two variants selected by a boolean: [mt_leaf fixed] and
+     [from_digests fixed].  [false] = the originally pinned tree (d7d20b5), [true] = after the
+     repairs b29c426 (`first_leaf_index.checked_add(index)?`) and 2570109
+     (`while count > 0 && count >= cutoff`).  The constants [CUR_LEAF_FIXED] / [CUR_CUTOFF_FIXED]
+     say which variant describes the current /repo; the oracle uses them and props pin them. *)
 From Coq Require Import ZArith List Bool.
 Import ListNotations.
 Open Scope Z_scope.
@@ -80,8 +81,8 @@ Fixpoint zrange (a : Z) (c : nat) : list Z :=
 Definition is_pow2 (n : Z) : bool := (0 <? n) && (n =? 2 ^ Z.log2 n).
 
 (* CUR_*: which variant of the two repairable functions describes the current /repo tree *)
-Definition CUR_LEAF_FIXED : bool := false.
-Definition CUR_CUTOFF_FIXED : bool := false.
+Definition CUR_LEAF_FIXED : bool := true.
+Definition CUR_CUTOFF_FIXED : bool := true.
 
 (* sorting helpers: slice::sort_unstable, Vec::dedup (adjacent duplicates only) *)
 Fixpoint insert_asc (x : Z) (l : list Z) : list Z :=
